@@ -438,6 +438,56 @@ func runListSawtooth[T comparable](c *core.Ctx, d *Dom[T]) {
 	c.Nontrivial()
 }
 
+// runListBulk: a large batch arrives in ONE call on a list that is empty at
+// that moment (fresh, cleared, or through the constructor), then the list is
+// used normally. Chunked allocation and block-wise copying have their seams at
+// 512/1024/4096; one-value-at-a-time growth never crosses them inside a call.
+func runListBulk(c *core.Ctx, sel int) {
+	r := c.R
+	d := IntDom(12)
+	n := []int{511, 512, 513, 1023, 1024, 1025, 1500, 2048, 2049, 4096, 4097, 5000}[sel%12]
+	vs := make([]int, n)
+	for i := range vs {
+		vs[i] = d.Wide(r)
+	}
+	var mons []*SeqMon[int]
+	switch (sel / 12) % 4 {
+	case 0:
+		mons = newListMons(c, d, vs...) // the variadic constructors
+	case 1:
+		mons = newListMons(c, d)
+		for _, m := range mons {
+			m.Apply(listOp[int]{kind: "Add", vs: vs})
+		}
+	case 2:
+		mons = newListMons(c, d, d.Vals(r, 5)...)
+		for _, m := range mons {
+			m.Apply(listOp[int]{kind: "Clear"})
+			m.Apply(listOp[int]{kind: "Insert", i: 0, vs: vs})
+		}
+	default:
+		mons = newListMons(c, d, d.Vals(r, 3)...)
+		for _, m := range mons {
+			m.Apply(listOp[int]{kind: "Add", vs: vs}) // onto a non-empty list, as a control
+		}
+	}
+	c.Count("obs:bulk-into-empty-list", 1)
+	for _, m := range mons {
+		m.CheckAll(true)
+	}
+	for s := 0; s < 40; s++ {
+		op := genListOp(r, d, mons[0].n(), n+64)
+		for _, m := range mons {
+			m.Apply(op)
+		}
+	}
+	for _, m := range mons {
+		c.ObserveNow()
+		m.CheckAll(true)
+	}
+	c.Nontrivial()
+}
+
 func runC03(c *core.Ctx) {
 	const sweepCases = 13 * 4 * 4
 	i := c.Index
@@ -456,6 +506,11 @@ func runC03(c *core.Ctx) {
 		runListHistory(c, IntDom(8), 400, c.R.Range(100, 300))
 	case i%20 == 6:
 		runListHistory(c, StructDom(c.R.Range(3, 10)), c.R.Range(20, 120), c.R.Range(4, 24))
+	case i%20 == 7:
+		c.Count("elemtype:pointer-twins", 1)
+		runListHistory(c, PTwinDom(), c.R.Range(20, 120), c.R.Range(4, 24))
+	case i%200 == 9:
+		runListBulk(c, i/200)
 	case i%20 == 2 && c.Tier == "thorough":
 		runListHistory(c, IntDom(12), 1500, c.R.Range(1000, 3000))
 	case i%4 == 3:
@@ -479,6 +534,8 @@ func init() {
 			"Every case is non-trivial (it makes at least one mutating call followed by a full observer comparison); distinct = distinct hash of the full call list.",
 		Floors: func(tier string, m map[string]int64) []string {
 			f := &floorCheck{m: m}
+			f.atLeast("obs:bulk-into-empty-list", 150)
+			f.atLeast("elemtype:pointer-twins", 1000)
 			for _, l := range []string{"ArrayList", "SinglyLinkedList", "DoublyLinkedList"} {
 				for _, ic := range []string{"negative", "first", "front-half", "back-half", "last", "size", "beyond"} {
 					for _, cc := range []string{"0", "1", ">1"} {
